@@ -27,6 +27,21 @@ NOTES = ("Every check: python3 run.py Cxx --tier quick|thorough. Lean theorems a
 NOT_APPLICABLE = {}
 
 CHECKS = {
+    "C17": {
+        "text": "Lean theorems, one per class of place where a runtime-chosen iteration order could reach the output: sorting erases any "
+                "permutation (sort_perm_invariant, for total antisymmetric orders; instance for sort.Strings), commuting per-key updates "
+                "and commutative reductions are order-free, and the repaired Collector.Finish is independent of the map-iteration oracle "
+                "for every oracle that returns a permutation (finish_sorted_order_independent); the unrepaired code is not (proved "
+                "counterexample, repaired by fix: 4dcd407). A regenerated-facts obligation checks on every run that every range over a "
+                "map-typed expression, unstable sort call and InstanceMap.Iterate/Keys caller found by go/types in the compiler and build "
+                "packages is in the audited table with an unchanged fingerprint of the audited loop / enclosing block. The property's own "
+                "observation is the search engine: generated multi-package generic programs built by N fresh compiler processes x minify x "
+                "cache on/off x permuted file listings must hash to one value per configuration.",
+        "note": "Trusted: the classification of each audited site is by reading the code; class F (monotone propagation to a fixed point) "
+                "relies on GV.Props.C02.propagate_lfp; nondeterminism is assumed to enter only through map iteration, unstable sorts and "
+                "file listing order (no goroutines/time/randomness on the output path - not checked).",
+        "technique": "Lean 4 proof (order-independence per class) + regenerated-facts obligation (audited iteration sites, decide) + repeated fresh-process build hashing as search",
+    },
     "C03": {
         "text": "Lean model of goroutines.js ($send/$recv/$close/$select, $go/$schedule/$runScheduled/$block, counters, timers) as "
                 "step : State -> Event -> State x Obs with every nondeterministic choice (random pick among ready select cases, which "
